@@ -165,8 +165,8 @@ def check_case(case) -> Result:
 
 
 def case_strategy(max_len=30):
-    long_pep = gen.pep_model(max_len=max_len, static_max_mult=4)
-    short_pep = gen.pep_model(max_len=12, static_max_mult=4)
+    long_pep = gen.pep_model(max_len=max_len, static_max_mult=4, static_mod_text=gen.mod_text(True))
+    short_pep = gen.pep_model(max_len=12, static_max_mult=4, static_mod_text=gen.mod_text(True))
     gt_names = st.sampled_from([e['name'] for e in gen.vocab()['unimod'] if '>' in e['name']])
     sty = gen.style()
 
